@@ -264,6 +264,14 @@ fn seek_program(db: &DB, keys: &[Vec<u8>], ex: &Explainer, what: &str, sig: &str
             Ok(it) => it,
             Err(_) => return None,
         };
+        // a full forward walk with this very iterator first (it stops at the damage, if it meets it)
+        if it.seek_to_first().is_ok() {
+            let mut guard = 0;
+            while it.is_valid() && guard < 10_000 {
+                it.next();
+                guard += 1;
+            }
+        }
         let mut ti = 0usize;
         for t in &targets {
             // the same iterator is used again after it reported an error: a new positioning call
@@ -515,7 +523,7 @@ pub fn body(case: &Case, out: &Shared) {
         // the file, (b) the type byte of the last physical record (Full -> First looks like a
         // writer that died after the first fragment).
         let mut headers: Vec<usize> = vec![];
-        if t.class == FileClass::Manifest {
+        if t.class == FileClass::Manifest || t.class == FileClass::Wal {
             let mut pos = 0usize;
             while pos + 7 <= original.len() {
                 let in_block = pos % 32768;
@@ -529,6 +537,9 @@ pub fn body(case: &Case, out: &Shared) {
             }
         }
         let is_exempt = |off: usize, nb: u8| -> bool {
+            if t.class != FileClass::Manifest {
+                return false;
+            }
             for (i, h) in headers.iter().enumerate() {
                 if off == h + 4 || off == h + 5 {
                     let mut lb = [original[h + 4], original[h + 5]];
@@ -627,6 +638,40 @@ pub fn body(case: &Case, out: &Shared) {
                 let what = format!("{} byte {} of {} ({} bytes): 0x{:02x} -> 0x{:02x} ({})", class, off, t.path.display(), t.len, b, nb, kind);
                 if !run_one(&make, what, kind) {
                     break 'outer;
+                }
+            }
+        }
+        // structure-aware: the record-type byte of every physical log record is rewritten to each
+        // other valid type (Full 0, First 1, Middle 2, Last 3); a random byte hits one of those by
+        // chance once in 256 times
+        if !headers.is_empty() {
+            let mut hs: Vec<usize> = headers.clone();
+            if hs.len() > 40 {
+                rng.shuffle(&mut hs);
+                hs.truncate(40);
+                hs.sort_unstable();
+            }
+            for h in hs {
+                let off = h + 6;
+                if off >= original.len() {
+                    continue;
+                }
+                let b = original[off];
+                for nb in 0u8..=3 {
+                    if nb == b || is_exempt(off, nb) {
+                        continue;
+                    }
+                    let make = || {
+                        let mut st = image.clone();
+                        if let Some(f) = st.file_mut(&t.path) {
+                            f[off] = nb;
+                        }
+                        st
+                    };
+                    let what = format!("{} byte {} of {} ({} bytes): record type 0x{:02x} -> 0x{:02x} (type)", class, off, t.path.display(), t.len, b, nb);
+                    if !run_one(&make, what, "type") {
+                        break 'outer;
+                    }
                 }
             }
         }
